@@ -7,7 +7,6 @@ import propcfg
 
 NA = [
     {"property_id": "C16", "reason": "pure function of its input (value encoding/decoding, sequential storage): nothing for a simulator to decide; see DESIGN.md section 6"},
-    {"property_id": "C19", "reason": "pure function of the build sequence and layout configuration; see DESIGN.md section 6"},
 ]
 ALL = ["C%02d" % i for i in range(1, 21)]
 checks = []
